@@ -15,11 +15,11 @@ CONSTANTS Fams,    \* families to enumerate: subset of FamAll
           Scale    \* "mc" (theorems, small domains), "quick" (vectors, small domains) or "gen" (vectors, full)
 VARIABLE x
 
-FamAll == {"var", "pn", "frame", "ackraw", "close", "tp", "pkt", "token", "cidgen", "b2", "b4"}
+FamAll == {"var", "pn", "frame", "ackraw", "close", "tp", "pkt", "token", "tokenraw", "cidgen", "b2", "b4"}
 
 B9s == <<N(0), N(1), N(63), N(64), N(16383), N(16384), N(T30 - 1), N(T30), NMax>>
 B9 == {B9s[i] : i \in 1..9}
-B5 == {N(0), N(63), N(64), N(T30), NMax}
+B5 == {N(0), N(1), N(63), N(64), N(T30), NMax}
 B3 == {N(0), N(16384), NMax}
 SmallDom == Scale \in {"mc", "quick"}
 BV == IF SmallDom THEN B5 ELSE B9          \* per-field values of frames with <= 3 fields
@@ -137,6 +137,11 @@ AckRawItems ==
   \* a range count that promises more ranges than are present
   \cup {[k |-> "Bytes", d |-> <<"frames">>, bs |-> EncI(2) \o Enc(N(100)) \o Enc(N(0)) \o Enc(c) \o Enc(N(0)) \o EncAll(gl)] :
      c \in {N(1), N(2), N(63), N(T30), NMax}, gl \in {<<>>, <<N(0), N(0)>>, <<N(0), N(0), N(1), N(1)>>}}
+  \* NEW_CONNECTION_ID: every length byte class, retire_prior_to above the sequence number
+  \cup {[k |-> "Bytes", d |-> <<"frames">>, bs |-> EncI(24) \o Enc(s) \o Enc(r) \o <<cl>> \o Iota(cl + extra)] :
+     s \in {N(0), N(5)}, r \in {N(0), N(5), N(6)}, cl \in {0, 1, 8, 20, 21, 255}, extra \in {0, 15, 16, 17}}
+  \* CONNECTION_CLOSE naming small frame types
+  \cup {[k |-> "Bytes", d |-> <<"frames">>, bs |-> EncFrame(F("CONNECTION_CLOSE", <<N(10), N(t)>>, <<<<33>>>>), TRUE)] : t \in 0..32}
 AckRawThm(it) == DecFrames(it.bs).ok \in BOOLEAN
 
 \* close frames with a reason that may not fit the space `max` offered to the encoder
@@ -154,6 +159,24 @@ TokenItems ==
      dst \in {<<>>, <<1, 2, 3, 4>>}, secs \in {N(0), N(42), N(1700000000), <<2, 5>>}}
 TokenThm(it) == Len(EncRetryToken(it.ip, it.port, it.cid, B8(it.secs))) = 1 + 1 + Len(it.ip) + 2 + 1 + Len(it.cid) + 8
                 /\ Len(EncValidationToken(it.ip, B8(it.secs))) = 1 + 1 + Len(it.ip) + 8
+\* token plaintexts as a server holding the token key could find them: well formed, for another
+\* address, malformed, and with issue times up to 2^64 - 1 seconds
+Secs8 == {<<0, 0, 0, 0, 0, 0, 0, 0>>, <<0, 0, 0, 0, 0, 0, 1, 244>>, <<63, 255, 255, 255, 255, 255, 255, 255>>,
+          <<128, 0, 0, 0, 0, 0, 0, 0>>, <<255, 255, 255, 255, 255, 255, 255, 255>>}
+TokenRawItems ==
+  {[k |-> "TokenRaw", dst |-> <<1, 2>>, plain |-> p] :
+     p \in {EncRetryToken(ip, port, cid, s) : ip \in {<<192, 0, 2, 7>>, <<192, 0, 2, 8>>, Tok16}, port \in {4433, 4434},
+                                             cid \in {<<>>, Cid8, Cid20}, s \in Secs8}
+          \cup {EncValidationToken(ip, s) : ip \in {<<192, 0, 2, 7>>, <<192, 0, 2, 8>>, Tok16}, s \in Secs8}
+          \cup {<<>>, <<0>>, <<1>>, <<2>>, <<2, 0, 192, 0, 2, 7, 0, 0, 0, 0, 0, 0, 0, 0>>, <<1, 2, 192, 0, 2, 7, 0, 0, 0, 0, 0, 0, 0, 0>>,
+                <<1, 0, 192, 0, 2, 7, 0, 0, 0, 0, 0, 0, 0>>, <<1, 0, 192, 0, 2, 7, 0, 0, 0, 0, 0, 0, 0, 0, 0>>,
+                <<0, 0, 192, 0, 2, 7, 17, 81, 21>> \o Iota(21) \o <<0, 0, 0, 0, 0, 0, 0, 0>>,
+                <<0, 0, 192, 0, 2, 7, 17, 81, 20>> \o Iota(20) \o <<0, 0, 0, 0, 0, 0, 0, 0, 0>>,
+                <<0, 0, 192, 0, 2, 7, 17, 81, 3, 1, 2>>}}
+TokenRawThm(it) ==
+  LET t == DecTokenPlain(it.plain) IN
+  /\ t.ok \in BOOLEAN
+  /\ t.ok => it.plain = IF t.retry THEN EncRetryToken(t.ip, t.port, t.cid, t.secs8) ELSE EncValidationToken(t.ip, t.secs8)
 CidGenItems == {[k |-> "CidGen", key |-> key] : key \in {0, 1, 2, 3, 255, 65536, 12345678, M31}}
 
 \* ------------------------------------------------------- transport parameters
@@ -255,7 +278,7 @@ BytesThm(it) ==
 Chunks(f) == CASE f = "var" -> 0..16
   [] f = "pn" -> {<<b, a>> : b \in 1..5, a \in 1..6}
   [] f = "frame" -> FrameNames
-  [] f \in {"ackraw", "close", "token", "cidgen"} -> {0}
+  [] f \in {"ackraw", "close", "token", "tokenraw", "cidgen"} -> {0}
   [] f = "tp" -> 0..(2048 + 15)
   [] f = "pkt" -> 1..Len(Shapes)
   [] f = "b2" -> 0..256
@@ -266,13 +289,14 @@ Items(f, c) == CASE f = "var" -> VarItems(c)
   [] f = "ackraw" -> AckRawItems
   [] f = "close" -> CloseItems
   [] f = "token" -> TokenItems
+  [] f = "tokenraw" -> TokenRawItems
   [] f = "cidgen" -> CidGenItems
   [] f = "tp" -> TpItems(c)
   [] f = "pkt" -> PktItems(c)
   [] f = "b2" -> B2Items(c)
   [] f = "b4" -> B4Items(c)
 Holds(f, it) == CASE f = "var" -> VarThm(it) [] f = "pn" -> PnThm(it) [] f = "frame" -> FrameThm(it)
-  [] f = "ackraw" -> AckRawThm(it) [] f = "close" -> CloseThm(it) [] f = "token" -> TokenThm(it)
+  [] f = "ackraw" -> AckRawThm(it) [] f = "close" -> CloseThm(it) [] f = "token" -> TokenThm(it) [] f = "tokenraw" -> TokenRawThm(it)
   [] f = "cidgen" -> TRUE [] f = "tp" -> TpThm(it) [] f = "pkt" -> PktThm(it)
   [] f \in {"b2", "b4"} -> BytesThm(it)
 
